@@ -31,7 +31,7 @@ PROFILE = S.GENERAL.but(p_raise=30, p_critical=55, p_sched_critical=55, p_nested
 
 
 def budget(tier):
-    return dict(examples=6000 if tier == 'quick' else 300000)
+    return dict(examples=6000 if tier == 'quick' else 150000)
 
 
 def strategy(tier):
